@@ -2,7 +2,7 @@
    Statements only; proofs live in proofs/Coord*.v.
    The matcher-loop theorems (narrowing_sound, loop_fresh, last_request_wins) belong to the C13 package; here the
    matcher is "one mailbox slot with the latest request + at most one running scan, published or cancelled". *)
-From Fzf Require Import Prelude CoordSpec CoordModel CoordFlat CoordProofs CoordMore CoordMain CoordProgress.
+From Fzf Require Import Prelude CoordSpec CoordModel CoordFlat CoordProofs CoordMore CoordMain CoordProgress CoordRevision.
 Open Scope Z_scope.
 
 (* For EVERY schedule (any interleaving of reader pushes / polls / end of input, terminal action lists - typing,
@@ -81,6 +81,34 @@ Example c08_nonvacuous :
   (quiescent s1 = true /\ r_nth (t_merger s1) = 1 /\ t_nth s1 = 1 /\ r_query (t_merger s1) = [98] /\ r_items (t_merger s1) = [0; 1; 2]) /\
   (quiescent s2 = true /\ r_sort (t_merger s2) = false /\ t_sort s2 = false).
 Proof. exact fixed_rules_same_schedules. Qed.
+
+(* revision_identifies_snapshot: the premise the matcher's per-query merger cache rests on (matcher.go: the cache
+   survives from one request to the next exactly when sort flag, revision and item count are the same; assumed as
+   `coherent` by loop_fresh of the C13 package).  For EVERY schedule: of two search requests handed to the matcher
+   (matcher.Reset; g_last is the request issued last), the later one never carries a smaller revision
+   (lexicographic on major, minor), and when the revisions are equal the earlier item list is a prefix of the later
+   one - so with equal counts the two requests are over the very same items.  A reload or reload-sync that replaces
+   the input by another one of the same number of lines therefore ALWAYS changes the revision: a merger cached for
+   the old input cannot be taken for an answer about the new one. *)
+Theorem revision_identifies_snapshot : forall q so n sched more r1 r2,
+  let s1 := run (init q so n) sched in
+  let s2 := run s1 more in
+  g_last s1 = Some r1 -> g_last s2 = Some r2 ->
+  rlex (r_rev r1) (r_rev r2) /\
+  (r_rev r1 = r_rev r2 -> prefix (r_items r1) (r_items r2) /\
+                          (length (r_items r1) = length (r_items r2) -> r_items r1 = r_items r2)).
+Proof. exact revision_identifies_snapshot_proof. Qed.
+Print Assumptions revision_identifies_snapshot.
+
+(* non-vacuity / sharpness: a one-line input [5], then reload-sync to the one-line input [7] arriving in one burst:
+   two final requests with the same query, sort flag and item count and different items - told apart by the revision *)
+Example revision_identifies_snapshot_nonvacuous :
+  let s1 := run (init [] true 0) (firstn 3 sched_reload_sync_same_count) in
+  let s2 := run s1 (skipn 3 sched_reload_sync_same_count) in
+  exists r1 r2, g_last s1 = Some r1 /\ g_last s2 = Some r2 /\
+    r_items r1 = [5] /\ r_items r2 = [7] /\ r_final r1 = true /\ r_final r2 = true /\ r_query r1 = r_query r2 /\
+    r_sort r1 = r_sort r2 /\ r_rev r1 = (0%nat, 0%nat) /\ r_rev r2 = (1%nat, 0%nat).
+Proof. exact reload_sync_same_count_example. Qed.
 
 (* Open items: none of the C08 coordinator statements is left unproved.  (Not part of this file: the matcher-loop
    theorems of the C13 package; timing - goroutine scheduling, timers - is explored by the harness, not proved.) *)
